@@ -146,6 +146,13 @@ def run(tier: str, seed: int) -> int:
     setup_jax(True)
     import jax.numpy as jnp
     import exponax as ex
+    # a session that has used the public indexing="xy" option for the very grids the steppers are built on afterwards: nothing may be
+    # shared between the two conventions (construction is pure)
+    for _D in (2, 3):
+        for _N in zoo.grid_sizes(_D, tier):
+            ex.spectral.build_derivative_operator(_D, 2 * np.pi, _N, indexing="xy")
+            ex.spectral.build_wavenumbers(_D, _N, indexing="xy")
+            ex.spectral.build_scaling_array(_D, _N, mode="reconstruction", indexing="xy")
     rng = np.random.default_rng(seed)
     terms = [t for t in nonlin.ALL_TERMS]
     confs = [("s12", [1008, 1009, 2006, 2007], [t for t in terms if t not in ("rot3d", "poly3", "cahn_hilliard", "gray_scott")]),
